@@ -46,6 +46,14 @@ def main(argv):
     if not os.path.exists(diff):
         print("no diff", diff)
         return 2
+    if "--checks" in argv and argv[argv.index("--checks") + 1] == "auto":
+        import re
+        head = open(note).read()[:600] if os.path.exists(note) else ""
+        m = re.search(r"BREAKS:\s*(.*)", head)
+        checks = sorted(set(re.findall(r"C\d\d", m.group(1)))) if m else []
+        if not checks:
+            print("no BREAKS line in", note)
+            return 2
     wt = "/tmp/wt/confirm%s" % slot
     if not os.path.isdir(wt):
         r = sh(["git", "-C", REPO, "worktree", "add", "-q", "--detach", wt, "HEAD"])
